@@ -53,6 +53,12 @@ func (s *State) clone() *State {
 type epochDef struct {
 	conds  []string
 	states []*State
+	// frame epoch (after a call that may allocate): every heap agrees with prev on the objects that
+	// existed before the call (refs <= oldTop); what the callee did to objects it allocated is unknown
+	frame  bool
+	prev   *State
+	oldTop string
+	newTop string
 }
 
 // Obligation: one verification condition.
@@ -88,10 +94,22 @@ func fieldHeapName(structT types.Type, field string) string {
 	return "F." + mangle(types.TypeString(structT, nil)) + "." + field
 }
 
-func cellHeapName(sort string) string { return "C." + sortKey(sort) }
-func elemHeapName(sort string) string { return "E." + sortKey(sort) }
-func mapPHeapName(k, v string) string  { return "MP." + sortKey(k) + "." + sortKey(v) }
-func mapVHeapName(k, v string) string  { return "MV." + sortKey(k) + "." + sortKey(v) }
+// heapKey: heaps of non-field locations are shared by all locations of the same kind of value;
+// references get their own heaps ("Ref") so that their type invariant (0 <= v <= top) can be stated.
+func heapKey(t *STy) string {
+	switch t.K {
+	case KRef, KMap, KFunc:
+		return "Ref"
+	case KTime:
+		return "Time"
+	}
+	return sortKey(t.Sort())
+}
+
+func cellHeapName(t *STy) string { return "C." + heapKey(t) }
+func elemHeapName(t *STy) string { return "E." + heapKey(t) }
+func mapPHeapName(k, v *STy) string  { return "MP." + heapKey(k) + "." + heapKey(v) }
+func mapVHeapName(k, v *STy) string  { return "MV." + heapKey(k) + "." + heapKey(v) }
 func mapLHeapName() string             { return "ML" }
 
 // Exec is the verification-condition generator for one function under contract.
@@ -102,6 +120,7 @@ type Exec struct {
 
 	heapSort map[string]string
 	heapGoTy map[string]types.Type // field heaps: Go type of the field (for quantified type invariants)
+	epochTop map[int]string
 	epochs   map[int]*epochDef
 	epochMem map[string]string
 	nextEp   int
@@ -124,6 +143,7 @@ type Exec struct {
 	top         topFrame
 	exceptTerms map[string]string
 	curTop      *ssa.Function
+	inSpec      int // > 0 while symbolically executing Go code inside a spec expression: no definitions, no assumptions
 	boundK      int // > 0: bounded-instance mode for counter-model search (integer quantifiers expanded)
 	topArgs     []Val
 	tagTypes    []types.Type
@@ -140,7 +160,7 @@ type specFnInfo struct {
 }
 
 func newExec(p *Program, w *World) *Exec {
-	e := &Exec{P: p, W: w, S: newScript(), heapSort: map[string]string{}, heapGoTy: map[string]types.Type{}, epochs: map[int]*epochDef{}, epochMem: map[string]string{},
+	e := &Exec{P: p, W: w, S: newScript(), heapSort: map[string]string{}, heapGoTy: map[string]types.Type{}, epochs: map[int]*epochDef{}, epochTop: map[int]string{}, epochMem: map[string]string{},
 		oblCount: map[string]int{}, Assumptions: map[string]bool{}, specFnDone: map[string]*specFnInfo{}, axiomsDone: map[string]bool{},
 		simplePure: map[*ssa.Function]int{}, boxDecl: map[string]bool{}, allAllocs: map[string]bool{}, exceptTerms: map[string]string{}, mapKeyCands: map[string][]string{}}
 	e.heapSort[topVar] = "Int"
@@ -183,9 +203,27 @@ func (e *Exec) epochVal(ep int, name string) string {
 	}
 	def := e.epochs[ep]
 	var v string
+	if def != nil && def.frame {
+		prevTerm := e.get(def.prev, name)
+		if !isObjectHeap(name) {
+			e.epochMem[key] = prevTerm
+			return prevTerm
+		}
+		v = e.S.declare(key, sort)
+		e.S.assume(fmt.Sprintf("(forall ((o Int)) (! (=> (<= o %s) (= (select %s o) (select %s o))) :pattern ((select %s o))))", def.oldTop, v, prevTerm, v))
+		e.heapInv(name, v, def.newTop)
+		e.epochMem[key] = v
+		return v
+	}
 	if def == nil {
 		v = e.S.declare(key, sort)
-		e.heapInv(name, v)
+		if name != topVar {
+			top, ok := e.epochTop[ep]
+			if !ok {
+				top = "$top"
+			}
+			e.heapInv(name, v, top)
+		}
 	} else {
 		var terms []string
 		same := true
@@ -202,7 +240,7 @@ func (e *Exec) epochVal(ep int, name string) string {
 			for i := len(terms) - 2; i >= 0; i-- {
 				body = ite(def.conds[i], terms[i], body)
 			}
-			v = e.S.define(key, sort, body)
+			v = e.defOrInline(key, sort, body)
 		}
 	}
 	e.epochMem[key] = v
@@ -221,35 +259,65 @@ func (e *Exec) setDef(st *State, name, term string) {
 func (e *Exec) havoc(st *State, name string) string {
 	n := e.S.declare(e.S.freshName(name), e.heapSort[name])
 	st.Vars[name] = n
-	e.heapInv(name, n)
+	if name != topVar {
+		e.heapInv(name, n, e.get(st, topVar))
+	}
 	return n
 }
 
-// heapInv: quantified type invariant of a freshly introduced (unconstrained) version of a field
-// heap: every object's field holds a well-typed Go value (slice header shape, one-of wrappers).
+// heapInv: quantified type invariant of a freshly introduced (unconstrained) heap version: every
+// location of an object that exists (ref <= top) holds a well-typed Go value. Indices above the
+// watermark are deliberately left unconstrained: they stand for objects not yet allocated, whose
+// contents a callee's contract may later describe (so unlisted heaps need no re-versioning when a
+// callee allocates: nothing was ever assumed or read at those indices).
+// (was: every location holds a well-typed Go value (slice header shape, one-of wrappers, references that
+// exist, i.e. lie below the allocation watermark `top` of the state the heap belongs to).
 // Assumed, never proved: it is what "well-typed Go heap" means in this memory model.
-func (e *Exec) heapInv(name, term string) {
-	gt, ok := e.heapGoTy[name]
-	if !ok {
-		return
+func (e *Exec) heapInv(name, term, top string) {
+	sliceInv := func(sel string) string {
+		return and(app(">=", app("sl-len", sel), "0"), eq(app("sl-off", sel), "0"), app(">=", app("sl-base", sel), "0"),
+			app("<=", app("sl-base", sel), top), implies(eq(app("sl-base", sel), "0"), eq(app("sl-len", sel), "0")))
 	}
-	ty := tyOfGo(gt)
-	if ty.K != KSlice && !(ty.K == KIface && e.sealedTags(gt) != nil) {
-		return
-	}
-	sel := app("select", term, "o")
-	var inv string
-	if ty.K == KSlice {
-		inv = and(app(">=", app("sl-len", sel), "0"), eq(app("sl-off", sel), "0"), app(">=", app("sl-base", sel), "0"),
-			implies(eq(app("sl-base", sel), "0"), eq(app("sl-len", sel), "0")))
-	} else {
-		alts := []string{eq(app("if-tag", sel), "0")}
-		for _, t := range e.sealedTags(gt) {
-			alts = append(alts, and(eq(app("if-tag", sel), smtInt(int64(e.S.tagOf(t)))), app(">", app("if-pay", sel), "0")))
+	refInv := func(sel string) string { return and(app(">=", sel, "0"), app("<=", sel, top)) }
+	switch {
+	case strings.HasPrefix(name, "F."):
+		gt, ok := e.heapGoTy[name]
+		if !ok {
+			return
 		}
-		inv = or(alts...)
+		ty := tyOfGo(gt)
+		sel := app("select", term, "o")
+		var inv string
+		switch {
+		case ty.K == KSlice:
+			inv = sliceInv(sel)
+		case ty.K == KRef || ty.K == KMap:
+			inv = refInv(sel)
+		case ty.K == KIface && e.sealedTags(gt) != nil:
+			alts := []string{eq(app("if-tag", sel), "0")}
+			for _, t := range e.sealedTags(gt) {
+				alts = append(alts, and(eq(app("if-tag", sel), smtInt(int64(e.S.tagOf(t)))), app(">", app("if-pay", sel), "0"), app("<=", app("if-pay", sel), top)))
+			}
+			inv = or(alts...)
+		default:
+			return
+		}
+		e.S.assume(fmt.Sprintf("(forall ((o Int)) (! (=> (<= o %s) %s) :pattern (%s)))", top, inv, sel))
+	case name == "C.Ref" || name == "C.Slice":
+		sel := app("select", term, "o")
+		inv := refInv(sel)
+		if name == "C.Slice" {
+			inv = sliceInv(sel)
+		}
+		e.S.assume(fmt.Sprintf("(forall ((o Int)) (! (=> (<= o %s) %s) :pattern (%s)))", top, inv, sel))
+	case name == "E.Ref" || name == "E.Slice":
+		sel := app("select", app("select", term, "o"), "i")
+		inv := refInv(sel)
+		if name == "E.Slice" {
+			inv = sliceInv(sel)
+		}
+		e.S.assume(fmt.Sprintf("(forall ((o Int) (i Int)) (! (=> (<= o %s) %s) :pattern (%s)))", top, inv, sel))
 	}
-	e.S.assume(fmt.Sprintf("(forall ((o Int)) (! %s :pattern (%s)))", inv, sel))
 }
 
 // havocAll starts a fresh epoch: every heap (known or not yet referenced) becomes unknown.
@@ -270,6 +338,37 @@ func (e *Exec) havocAll(st *State, keep func(name string) bool) {
 	}
 	nt := e.havoc(st, topVar)
 	e.S.assume(fmt.Sprintf("(>= %s %s)", nt, oldTop))
+	e.epochTop[st.Epoch] = nt
+}
+
+// isObjectHeap: heaps indexed by object reference (fields, cells, elements, maps); ghost variables
+// and iteration ghosts are not affected by allocation.
+func isObjectHeap(name string) bool {
+	return strings.HasPrefix(name, "F.") || strings.HasPrefix(name, "C.") || strings.HasPrefix(name, "E.") || strings.HasPrefix(name, "M")
+}
+
+// frameEpoch: the state after a call that may have allocated objects. Ghost variables keep their
+// current versions; every object heap gets (lazily) a new version that agrees with the old one
+// on the objects that existed before the call.
+func (e *Exec) frameEpoch(st *State) {
+	prev := st.clone()
+	oldTop := e.get(st, topVar)
+	e.nextEp++
+	ep := e.nextEp
+	nv := map[string]string{}
+	for k, v := range st.Vars {
+		if !isObjectHeap(k) {
+			nv[k] = v
+		}
+	}
+	// ghost variables not yet materialised in Vars resolve through prev (see epochVal)
+	st.Epoch = ep
+	st.Vars = nv
+	nt := e.S.declare(e.S.freshName(topVar), "Int")
+	e.S.assume(fmt.Sprintf("(>= %s %s)", nt, oldTop))
+	st.Vars[topVar] = nt
+	e.epochs[ep] = &epochDef{frame: true, prev: prev, oldTop: oldTop, newTop: nt}
+	e.epochTop[ep] = nt
 }
 
 func (e *Exec) bumpTop(st *State) {
@@ -327,7 +426,7 @@ func (e *Exec) merge(conds []string, states []*State) *State {
 		for i := len(terms) - 2; i >= 0; i-- {
 			body = ite(conds[i], terms[i], body)
 		}
-		n.Vars[k] = e.S.define(e.S.freshName(k), e.heapSort[k], body)
+		n.Vars[k] = e.defOrInline(e.S.freshName(k), e.heapSort[k], body)
 	}
 	return n
 }
@@ -341,6 +440,25 @@ func (e *Exec) oblig(st *State, kind, what, cond, src, pos string) *Obligation {
 		Inlined: strings.Join(e.inlineStack, ">"), ExceptTerms: e.exceptTerms, Exec: e}
 	e.Obls = append(e.Obls, o)
 	return o
+}
+
+// assume adds an assumption unless we are evaluating Go code inside a spec expression.
+func (e *Exec) assume(t string) {
+	if e.inSpec > 0 {
+		return
+	}
+	e.S.assume(t)
+}
+
+// defOrInline names a term, or leaves it inline in spec-mode.
+func (e *Exec) defOrInline(name, sort, term string) string {
+	if e.inSpec > 0 || isAtom(term) {
+		return term
+	}
+	if e.S.declared[name] {
+		name = e.S.freshName(name)
+	}
+	return e.S.define(name, sort, term)
 }
 
 func (e *Exec) note(f string, a ...interface{}) { e.notes = append(e.notes, fmt.Sprintf(f, a...)) }
